@@ -322,6 +322,9 @@ type renegCase struct {
 	requests int
 	// can13: the target can complete a TLS 1.3 handshake (needed for warm13)
 	can13 bool
+	// after, if set, runs on the server side once the script's records are written (to look
+	// at what the client answers)
+	after func(server *tls.Conn, ch2 *wire.ClientHello)
 }
 
 type renegResult struct {
@@ -392,6 +395,9 @@ func c33RunReneg(cs renegCase) renegResult {
 			if tls.VerifWriteRecord(server, rec.typ, rec.data) != nil {
 				return
 			}
+		}
+		if cs.after != nil {
+			cs.after(server, ch2)
 		}
 	}()
 	go func() {
